@@ -18,6 +18,7 @@ type Case struct {
 	MaxPaths      int      `json:"max_paths,omitempty"`
 	MaxSteps      int      `json:"max_steps,omitempty"`
 	WitnessEvery  int      `json:"witness_every,omitempty"`
+	MaxWitnesses  int      `json:"max_witnesses,omitempty"`
 	MaxMapPerm    int      `json:"max_map_perm,omitempty"`
 	ByteEnum      bool     `json:"byte_enum,omitempty"`
 	OrderPolicies int      `json:"order_policies,omitempty"`
@@ -71,6 +72,9 @@ func (s *Session) Explore(c Case) *CaseReport {
 	}
 	if c.WitnessEvery == 0 {
 		c.WitnessEvery = 200
+	}
+	if c.MaxWitnesses == 0 {
+		c.MaxWitnesses = 400
 	}
 	t0 := time.Now()
 	var mu sync.Mutex
@@ -148,7 +152,7 @@ func (s *Session) Explore(c Case) *CaseReport {
 						rep.Violations = append(rep.Violations, v)
 					}
 				}
-				if res.HasWitness && len(rep.Witnesses) < 400 {
+				if res.HasWitness && len(rep.Witnesses) < c.MaxWitnesses {
 					rep.Witnesses = append(rep.Witnesses, Witness{Inputs: res.Witness, Observes: res.Observes, Reached: res.Reached, MapOrder: res.MapOrders > 0})
 				}
 				if rep.TotalPaths >= c.MaxPaths {
